@@ -13,6 +13,9 @@ fn run_replay_file(path: &Path) -> Result<(ReplayFile, Vec<Fail>), String> {
     let (_, replay) = props::lookup(&rf.property).ok_or(format!("unknown property {}", rf.property))?;
     let mut st = Stats::new();
     let fails = replay(&rf.leg, &rf.spec, &mut st)?;
+    if std::env::var("QV_DEBUG").is_ok() {
+        eprintln!("classes reached by the replay: {:?}", st.classes);
+    }
     Ok((rf, fails))
 }
 
